@@ -36,6 +36,8 @@ pub enum Error {
     DictKeyTypesDiffer,
     #[error("Dict values differ in type")]
     DictValueTypesDiffer,
+    #[error("Variant signature differs from the type of its value")]
+    VariantTypeDiffers,
 }
 
 type Result<T> = std::result::Result<T, Error>;
